@@ -1,6 +1,7 @@
 package props
 
 import (
+	"net/url"
 	"net/http"
 	"regexp"
 	"strings"
@@ -37,6 +38,19 @@ func expectReject(r *http.Request) string {
 		return ""
 	}
 	if len(cts) == 0 {
+		// a Connect GET (announced by exactly one connect=v1 in the query, or by exactly one
+		// Connect-Protocol-Version: 1 line) for a configured method that is not declared free of
+		// side effects: wrong HTTP method
+		if name, ok := strings.CutPrefix(r.URL.Path, "/verif.v1.Svc/"); ok && r.Method == http.MethodGet {
+			_, known := svcMethods[name]
+			q, qerr := url.ParseQuery(strings.ReplaceAll(r.URL.RawQuery, ";", "%3B"))
+			byQuery := qerr == nil && len(q["connect"]) == 1 && q["connect"][0] == "v1"
+			vs := r.Header.Values("Connect-Protocol-Version")
+			byHeader := len(vs) == 1 && vs[0] == "1"
+			if known && name != "Pure" && (byQuery || byHeader) {
+				return "get-for-a-method-not-declared-side-effect-free"
+			}
+		}
 		return ""
 	}
 	ct := cts[0]
